@@ -11,6 +11,10 @@
 //!    placed at every position of 1-, 2- and 3-entry file lists;
 //!  * names.octets — every octet value 0..=255 substituted at every position
 //!    and inserted at every gap of five valid base names;
+//!  * names.length — stems of every length 1..=300 and around 512, 1024, 4096
+//!    and 65 536 octets in every character class, valid and nearly valid,
+//!    resolved against 16 base URIs near the same limits (deep, long segments,
+//!    long totals): the manifest name check against the URI join check;
 //!  * cms.names — the K-th subset of names.alphabet through `Manifest::decode`;
 //!  * hash.bitstring — hash lengths {0,1,31,32,33} x unused bits {0,1,7,8} x
 //!    last-octet patterns x two data values, and all 256 one-bit changes of a
@@ -119,10 +123,21 @@ impl Case {
     }
 }
 
+fn esc1(c: u8) -> String {
+    if (0x21..=0x7e).contains(&c) && !b"\\\",{}".contains(&c) { (c as char).to_string() } else { format!("\\x{c:02x}") }
+}
+
+/// Octets rendered printably; a run of 8 or more equal octets is written
+/// `c{xN}` (so a 65 535-octet name stays a short, exact witness).
 fn esc(b: &[u8]) -> String {
     let mut s = String::new();
-    for &c in b {
-        if (0x21..=0x7e).contains(&c) && c != b'\\' && c != b'"' && c != b',' { s.push(c as char) } else { s.push_str(&format!("\\x{c:02x}")) }
+    let mut i = 0;
+    while i < b.len() {
+        let mut j = i;
+        while j < b.len() && b[j] == b[i] { j += 1 }
+        let one = esc1(b[i]);
+        if j - i >= 8 { s.push_str(&format!("{one}{{x{}}}", j - i)) } else { for _ in i..j { s.push_str(&one) } }
+        i = j;
     }
     s
 }
@@ -161,7 +176,7 @@ impl Tally {
     fn stat(&mut self, k: &'static str) { *self.stats.entry(k).or_insert(0) += 1 }
     fn fail(&mut self, oracle: &'static str, witness: impl FnOnce() -> String, detail: String) {
         let k = self.kept.entry(oracle).or_insert(0);
-        if *k < KEEP_PER_CHUNK { *k += 1; self.fails.push((oracle, witness(), detail)) }
+        if *k < KEEP_PER_CHUNK { *k += 1; self.fails.push((oracle, witness(), trunc(&detail, 700))) }
         else { *self.overflow.entry(oracle).or_insert(0) += 1 }
     }
     fn sample(&mut self, f: impl FnOnce() -> String) { if self.samples.len() < 2 { self.samples.push(f()) } }
@@ -269,12 +284,12 @@ fn examine(t: &mut Tally, fx: &Fixed, c: &Case, mc: &ManifestContent, wit: &dyn 
     for (base, dir) in &fx.bases {
         let uris = match guard(|| mc.iter_uris(base).collect::<Vec<_>>()) {
             Ok(v) => v,
-            Err(p) => { t.fail("C14.uris.no_panic", wit, format!("iter_uris({base}) panicked: {p}")); continue }
+            Err(p) => { t.fail("C14.uris.no_panic", wit, format!("iter_uris({}) panicked: {p}", esc(base.as_slice()))); continue }
         };
         if uris.len() != mc.len() {
-            t.fail("C14.len.iter_count", wit, format!("len() = {} but iter_uris({base}) yields {}", mc.len(), uris.len()));
+            t.fail("C14.len.iter_count", wit, format!("len() = {} but iter_uris({}) yields {}", mc.len(), esc(base.as_slice()), uris.len()));
         }
-        let dir_uri = uri::Rsync::from_str(dir).expect("dir URI");
+        let Ok(dir_uri) = uri::Rsync::from_str(dir) else { t.stat("directory_of_base_not_a_uri"); continue };
         for (i, (u, h)) in uris.iter().enumerate() {
             let s = u.as_str();
             // directly inside: the directory, then exactly one non-empty segment
@@ -283,18 +298,18 @@ fn examine(t: &mut Tally, fx: &Fixed, c: &Case, mc: &ManifestContent, wit: &dyn 
             let listed = items.get(i).map(|(n, _)| n.as_ref());
             let expected = listed.map(|n| [dir.as_bytes(), n].concat());
             if !inside || expected.as_deref() != Some(s.as_bytes()) {
-                t.fail("C14.uris.inside", wit, format!("iter_uris({base}) entry {i} = {s}, expected {}<name {}>", dir, listed.map(esc).unwrap_or_default()));
+                t.fail("C14.uris.inside", wit, format!("iter_uris({}) entry {i} = {}, expected {}<name {}>", esc(base.as_slice()), esc(s.as_bytes()), esc(dir.as_bytes()), listed.map(esc).unwrap_or_default()));
                 continue;
             }
             match uri::Rsync::from_str(s) {
                 Ok(r) if r == *u => {}
-                _ => t.fail("C14.uris.inside", wit, format!("iter_uris({base}) entry {i} = {s} is not a well-formed rsync URI")),
+                _ => t.fail("C14.uris.inside", wit, format!("iter_uris({}) entry {i} = {} is not a well-formed rsync URI", esc(base.as_slice()), esc(s.as_bytes()))),
             }
             if u.parent().as_ref() != Some(&dir_uri) {
-                t.fail("C14.uris.parent", wit, format!("{s}.parent() = {:?}, expected {dir}", u.parent().map(|p| p.to_string())));
+                t.fail("C14.uris.parent", wit, format!("{}.parent() = {:?}, expected {}", esc(s.as_bytes()), u.parent().map(|p| esc(p.as_slice())), esc(dir.as_bytes())));
             }
             if !base.is_parent_of(u) {
-                t.fail("C14.uris.parent", wit, format!("{base}.is_parent_of({s}) is false"));
+                t.fail("C14.uris.parent", wit, format!("{}.is_parent_of({}) is false", esc(base.as_slice()), esc(s.as_bytes())));
             }
             // a listed hash verifies exactly when it equals SHA-256(data)
             let listed_hash = items.get(i).map(|(_, h)| h.as_ref()).unwrap_or(&[]);
@@ -520,7 +535,7 @@ fn names_octets(ctx: &Ctx, fx: &Fixed, cms: &Cms) {
 
 fn hash_bitstring(ctx: &Ctx, fx: &Fixed, cms: &Cms) {
     let sp = ctx.space("hash.bitstring",
-        "hash BIT STRING octet lengths {0,1,31,32,33} x declared unused bits {0,1,7,8} x last octet {as is, low unused bits cleared, low bit set} derived from SHA-256 of two data values (one digest ending in seven zero bits, found by counting), as only entry and after a valid entry, DER and BER mode and through Manifest::decode; plus all 256 one-bit changes of the correct digest; for each accepted entry verify() against the data, two one-bit-different data and empty data; non-trivial = distinct encodings whose hash octets differ from the correct digest");
+        "hash BIT STRING octet lengths {0,1,31,32,33} x declared unused bits {0,1,7,8} x last octet {as is, low unused bits cleared, low bit set} derived from SHA-256 of two data values (one digest ending in seven zero bits, found by counting), as only entry and after a valid entry, DER and BER mode and through Manifest::decode; plus all 256 one-bit changes of the correct digest, all 496 octet pairs changed by the same difference (0x01, 0x80, 0xff) and 31 octet swaps; for each accepted entry verify() against the data, two one-bit-different data and empty data; non-trivial = distinct encodings whose hash octets differ from the correct digest");
     // second data value: first counter whose digest ends in seven zero bits, so that
     // the digest itself is a DER-valid content for 1 and 7 declared unused bits
     let mut ctr = 0u32;
@@ -571,9 +586,106 @@ fn hash_bitstring(ctx: &Ctx, fx: &Fixed, cms: &Cms) {
             run_both(&mut t, fxx, &c);
             n_cases += 1;
         }
+        // every pair of octets changed by the same difference (differences that
+        // cancel under a sum or xor fold), three differences
+        for delta in [0x01u8, 0x80, 0xff] {
+            for i in 0..32usize { for j in i + 1..32 {
+                let mut h = digest.clone(); h[i] ^= delta; h[j] ^= delta;
+                t.nontrivial += 1;
+                let c = Case::plain(vec![MftEntry { name: b"obj.roa".to_vec(), hash_unused: 0, hash: h }]);
+                run_both(&mut t, fxx, &c);
+                n_cases += 1;
+            }}
+        }
+        // two octets swapped, first with every other (same multiset of octets)
+        for j in 1..32usize {
+            let mut h = digest.clone(); h.swap(0, j);
+            if h == digest { continue }
+            t.nontrivial += 1;
+            let c = Case::plain(vec![MftEntry { name: b"obj.roa".to_vec(), hash_unused: 0, hash: h }]);
+            run_both(&mut t, fxx, &c);
+            n_cases += 1;
+        }
     }
     t.flush(ctx, &sp);
     sp.done(true, &format!("{n_cases} distinct hash encodings x DER/BER (+ signed object for the length/unused grid)"));
+}
+
+//------------ length boundaries: the name check against the URI join check ---------------
+
+/// Stem lengths: every length 1..=300, then the powers-of-two / NAME_MAX /
+/// PATH_MAX / 16-bit neighbourhoods.
+fn stem_lengths() -> Vec<usize> {
+    let mut v: Vec<usize> = (1..=300).collect();
+    v.extend([511, 512, 1023, 1024, 4095, 4096, 65535 - 4, 65536 - 4, 65535, 65536]);
+    v
+}
+
+/// Base URIs near the limits a URI component might impose, with their directory.
+fn long_bases(t: &mut Tally) -> Vec<(uri::Rsync, String)> {
+    let m = "rsync://host/module/";
+    let seg = |c: char, n: usize| c.to_string().repeat(n);
+    let mut cands: Vec<String> = vec![
+        m.into(), format!("{m}dir/sub/"), format!("{m}dir"),
+        "RSYNC://HOST.example/Module/Dir/".into(),
+        format!("{m}{}", "d/".repeat(200)),                         // 200 levels deep
+        format!("{m}{}/", seg('s', 254)), format!("{m}{}/", seg('s', 255)), format!("{m}{}/", seg('s', 256)),
+        format!("{m}{}", seg('s', 255)),                            // longest classic segment, no trailing slash
+        format!("rsync://host/{}/", seg('m', 255)),                 // long module name, empty path
+    ];
+    // total length at 255/256, 4095/4096 and 65535/65536 octets (segments of at most 100)
+    for total in [255usize, 256, 4095, 4096, 65535, 65536] {
+        let mut s = String::from(m);
+        while s.len() < total { let n = (total - s.len() - 1).min(100); if n == 0 { break } s.push_str(&seg('y', n)); s.push('/'); }
+        if s.len() == total { cands.push(s) }
+    }
+    let mut out = Vec::new();
+    for c in cands {
+        match uri::Rsync::from_str(&c) {
+            Ok(u) => { let dir = if c.ends_with('/') { c.clone() } else { format!("{c}/") }; out.push((u, dir)) }
+            Err(_) => t.stat("base_uri_refused_by_library"),
+        }
+    }
+    out
+}
+
+fn names_length(ctx: &Ctx, fx: &Fixed, cms: &Cms) {
+    let sp = ctx.space("names.length",
+        "stems of every length 1..=300 and {511,512,1023,1024,4095,4096,65531,65532,65535,65536} octets in 6 character classes (a, Z, 0, -, _, half Z half _) x 8 shapes (valid .roa, valid .CER, two-letter and four-letter extension, no dot, slash inside, second dot, digit in extension), alone and after a valid entry, DER and BER mode; valid names whose stem length is a multiple of 25, within 248..=258, or above 300 also through Manifest::decode; every accepted list is resolved against each of 16 candidate base URIs that the library constructs (refusals are counted in statistics.base_uri_refused_by_library; the 3 usual ones, upper-case scheme/host, 200 levels deep, last segment of 254/255/256 octets with and without trailing slash, 255-octet module, total length 255/256/4095/4096/65535/65536); non-trivial = distinct names longer than 7 octets (beyond names.alphabet)");
+    let mut t0 = Tally::default();
+    let mut fxl = Fixed::new();
+    fxl.bases = long_bases(&mut t0);
+    sp.set("bases", serde_json::json!(fxl.bases.iter().map(|(b, _)| esc(b.as_slice())).collect::<Vec<_>>()));
+    let lens = stem_lengths();
+    let classes: [(u8, u8); 6] = [(b'a', b'a'), (b'Z', b'Z'), (b'0', b'0'), (b'-', b'-'), (b'_', b'_'), (b'Z', b'_')];
+    let jobs: Vec<(usize, usize)> = lens.iter().flat_map(|&l| (0..classes.len()).map(move |k| (l, k))).collect();
+    let fxl = &fxl;
+    let parts: Vec<Tally> = jobs.par_iter().map(|&(l, k)| {
+        let mut t = Tally::default();
+        let (c1, c2) = classes[k];
+        let stem: Vec<u8> = (0..l).map(|i| if i < l.div_ceil(2) { c1 } else { c2 }).collect();
+        let with = |tail: &[u8]| [stem.as_slice(), tail].concat();
+        let split = |mid: u8, tail: &[u8]| [&stem[..l / 2], &[mid][..], &stem[l / 2..], tail].concat();
+        let shapes: [Vec<u8>; 8] = [
+            with(b".roa"), with(b".CER"),
+            with(b".ro"), with(b".roaa"), with(b"roa"), split(b'/', b".roa"), split(b'.', b".roa"), with(b".r0a"),
+        ];
+        for (si, name) in shapes.iter().enumerate() {
+            if name.len() > 7 { t.nontrivial += 1 }
+            for a in [0usize, 2] {
+                let c = Case::plain(arrangement(fxl, a, name));
+                let ec = Bytes::from(c.econtent());
+                let acc = run_content(&mut t, fxl, &c, &ec, true);
+                run_content(&mut t, fxl, &c, &ec, false);
+                if acc && a == 0 { t.stat("distinct_names_accepted") }
+                if si == 0 && a == 0 && (l % 25 == 0 || (248..=258).contains(&l) || l > 300) { run_cms(&mut t, fxl, cms, &c, &ec, acc) }
+            }
+        }
+        t
+    }).collect();
+    for p in parts { t0.absorb(p) }
+    t0.flush(ctx, &sp);
+    sp.done(true, &format!("{} stem lengths x {} classes x 8 shapes x 2 placements x 2 modes, each accepted list against {} bases", lens.len(), classes.len(), fxl.bases.len()));
 }
 
 fn time_domain() -> Vec<TimeEnc> {
@@ -718,6 +830,7 @@ fn main() {
 
     names_alphabet(&ctx, &fx, &cms);
     names_octets(&ctx, &fx, &cms);
+    names_length(&ctx, &fx, &cms);
     hash_bitstring(&ctx, &fx, &cms);
     times(&ctx, &fx, &cms);
     header_len(&ctx, &fx, &cms);
